@@ -699,7 +699,8 @@ def r03_6(ctx: Ctx):
 
     if not ok and len(rets) == 1 and cond_is(rets[0].value, f"{tp}.n_evaluations >= {m.self_name()}.limit", defs):
         ok = True
-    definite = (not ok) and (re.fullmatch(re.escape(tp) + r"\.n_evaluations(>|==|<|<=)" + re.escape(m.self_name()) + r"\.limit", t) is not None or "n_evaluations" not in t)
+    definite = (not ok) and (re.fullmatch(re.escape(tp) + r"\.n_evaluations(>|==|<|<=)" + re.escape(m.self_name()) + r"\.limit", t) is not None or "n_evaluations" not in t
+                             or re.fullmatch(re.escape(tp) + r"\.(root|leaves|levels|_levels|active_demes|active_non_leaves)\b.*\.n_evaluations(>=|>|==)" + re.escape(m.self_name()) + r"\.limit", t) is not None)
     obs.append(ctx.ob("R03.6", m, m.node, status=OK if ok else VIOLATION if definite else INCONCLUSIVE, detail="tree.n_evaluations >= limit" if ok else f"SingularProblemEvalLimitReached returns `{t}` instead of tree.n_evaluations >= limit", construct="singular"))
     w = ctx.prog.own_method("FitnessEvalLimitReached", "__call__")
     tp = w.params()[1]
